@@ -2,13 +2,19 @@ pub mod common;
 pub mod c01;
 pub mod c02;
 pub mod c03;
+pub mod c04;
+pub mod c05;
 pub mod c06;
 pub mod c07;
 pub mod c08;
 pub mod c12;
+pub mod c13;
 pub mod c14;
+pub mod c15;
+pub mod c16;
 pub mod flowkit;
 pub mod c10;
+pub mod c11;
 
 use crate::Ctx;
 use serde_json::Value;
@@ -23,6 +29,13 @@ pub fn run(prop: &str, ctx: &mut Ctx, replay: Option<&Value>) {
         "C06" => c06::run(ctx, replay),
         "C07" => c07::run(ctx, replay),
         "C12" => c12::run(ctx, replay),
+        "C13" => c13::run(ctx, replay),
+        "C15" => c15::run(ctx, replay),
+        "C16" => c16::run(ctx, replay),
+        "C04" => c04::run(ctx, replay),
+        "C11" => c11::run(ctx, replay),
+        "C05" => c05::run(ctx, replay, false),
+        "C09" => c05::run(ctx, replay, true),
         "C14" => c14::run(ctx, replay),
         other => {
             eprintln!("no harness run for property {}", other);
